@@ -45,6 +45,7 @@ theorem SN_neg (cap0 : Option Name) (d : Nat) (pre : Option Name) : ClosedNeg (S
   wHdr := fun s h => SN_ev cap0 d pre s _ (fun n hn => by cases hn) h
   wStartTLS := fun s h => SN_ev cap0 d pre s _ (fun n hn => by cases hn) h
   wOther := fun s id h => SN_ev cap0 d pre s _ (fun n hn => by cases hn) h
+  advert := fun s ids h => h
   choose := by
     intro s h
     obtain ⟨hc, hd, hs, ht⟩ := h
@@ -77,5 +78,48 @@ theorem run_names (cfg : Cfg) (env : Env) (st0 : Mask) (i : Input) (fuel : Nat) 
     have h := loop_all (SN_io env.captured env.domain env.conn.name) (SN_neg env.captured env.domain env.conn.name)
       (SN_install env.captured env.domain env.conn.name) cfg fuel false (init env st0 i) h0
     exact ⟨fun n hn => h.2.2.2 n (List.mem_reverse.1 hn), h.1⟩
+
+/-! ### `Session.features` on a protected stream holds only what was advertised inside TLS -/
+
+def FC (s : Sess) : Prop := s.tls = true → ∀ x ∈ s.features, x.2 = true
+
+theorem FC_io : ClosedIO FC where
+  hello := fun s h => sendHello_ind (P := FC) s h (fun n => h)
+  hs := fun s h => h
+  fromBuf := fun s o u rest h _ => h
+  fromTls := fun s u rest h _ _ _ => h
+  fromClear := fun s u us rest h _ _ _ => h
+
+theorem FC_neg : ClosedNeg FC where
+  wHdr := fun s h => h
+  wStartTLS := fun s h => h
+  wOther := fun s id h => h
+  choose := fun s h => h
+  advert := by
+    intro s ids h ht x hx
+    simp only [advert, List.mem_append, List.mem_map] at hx
+    rcases hx with hx | ⟨id, _, rfl⟩
+    · exact h ht x hx
+    · exact ht
+  oracle := fun s o h => h
+  neg := fun s m id h => h
+  first := fun s h => h
+  doRestart := fun s b h => h
+  restart := fun s h => fun _ x hx => (by cases hx)
+  stateOr := fun s m h => h
+
+theorem FC_install : ClosedInstall FC where
+  installTls := fun s h => fun _ x hx => (by cases hx)
+
+theorem run_features (cfg : Cfg) (env : Env) (st0 : Mask) (i : Input) (fuel : Nat)
+    (ht : tlsAfter cfg env st0 i fuel = true) : ∀ x ∈ featuresAfter cfg env st0 i fuel, x.2 = true := by
+  unfold tlsAfter at ht
+  unfold featuresAfter
+  split
+  · intro x hx; cases hx
+  · next hu =>
+    rw [if_neg hu] at ht
+    exact loop_all FC_io FC_neg FC_install cfg fuel false (init env st0 i)
+      (fun _ x hx => (by cases hx)) ht
 
 end XmppModel.StartTLS
